@@ -63,7 +63,11 @@ where
             rows = db.iter().map(|(_, v)| v).collect::<Vec<_>>();
         } else {
             let mut q = q.clone();
+            // the matched keys of the whole query, `None` means there is no constraint yet
+            // an empty set is a real result and must not be treated as `no constraint`
+            let mut items: Option<HashSet<Box<[u8]>>> = None;
             for cond in q.queries_mut() {
+                let mut cond_result: Option<HashSet<Box<[u8]>>> = None;
                 for expr in cond.conds().clone().iter() {
                     let mut result = HashSet::new();
                     for (k, v) in db.iter() {
@@ -78,20 +82,41 @@ where
                             result.insert(k.as_bytes().to_vec().into_boxed_slice());
                         }
                     }
-                    cond.calc(&result);
+                    cond_result = Some(match (cond_result, &cond.r#type) {
+                        (None, _) => result,
+                        (Some(acc), CondType::And) => {
+                            acc.intersection(&result).cloned().collect::<HashSet<_>>()
+                        }
+                        (Some(acc), CondType::Or) => {
+                            acc.union(&result).cloned().collect::<HashSet<_>>()
+                        }
+                    });
+                }
+                if let Some(cond_result) = cond_result {
+                    cond.result = cond_result.clone();
+                    items = Some(match items {
+                        None => cond_result,
+                        Some(acc) => acc
+                            .intersection(&cond_result)
+                            .cloned()
+                            .collect::<HashSet<_>>(),
+                    });
                 }
             }
-
-            let items = q.calc();
             #[allow(unused_assignments)]
             {
                 rows = db
                     .iter()
                     .filter_map(|(k, v)| {
-                        if items.contains(&k.as_bytes().to_vec().into_boxed_slice()) {
-                            return Some(v);
+                        match &items {
+                            Some(items) => {
+                                if items.contains(&k.as_bytes().to_vec().into_boxed_slice()) {
+                                    return Some(v);
+                                }
+                                None
+                            }
+                            None => Some(v),
                         }
-                        None
                     })
                     .collect::<Vec<_>>();
             }
